@@ -4,6 +4,7 @@ import (
 	"context"
 	"encoding/json"
 	"fmt"
+	"github.com/ansible/receptor/pkg/logger"
 	"io"
 	"net"
 	"strings"
@@ -25,16 +26,16 @@ type C03Link struct {
 }
 
 type C03Scn struct {
-	Hops    int       `json:"hops"`            // 1..4 links on the main path n0 - n1 - ... - nH
-	Detour  bool      `json:"detour"`          // a costlier alternative n0 - x - nH exists
-	Links   []C03Link `json:"links"`           // fault programmes of the main path links (cycled)
-	Class   string    `json:"class"`           // clean | lossless (dup/delay/reorder only) | light (<=3% drop) | stress (<=10% drop)
-	WritesA []int     `json:"wa"`              // write sizes of the dialling side
-	WritesB []int     `json:"wb"`              // write sizes of the accepting side
-	ReadA   []int     `json:"ra"`              // read buffer sizes (cycled)
+	Hops    int       `json:"hops"`   // 1..4 links on the main path n0 - n1 - ... - nH
+	Detour  bool      `json:"detour"` // a costlier alternative n0 - x - nH exists
+	Links   []C03Link `json:"links"`  // fault programmes of the main path links (cycled)
+	Class   string    `json:"class"`  // clean | lossless (dup/delay/reorder only) | light (<=3% drop) | stress (<=10% drop)
+	WritesA []int     `json:"wa"`     // write sizes of the dialling side
+	WritesB []int     `json:"wb"`     // write sizes of the accepting side
+	ReadA   []int     `json:"ra"`     // read buffer sizes (cycled)
 	ReadB   []int     `json:"rb"`
-	Mode    string    `json:"mode"`            // direct | proxy (TCP client -> inbound proxy -> mesh stream -> outbound proxy -> TCP server)
-	Shape   string    `json:"shape"`           // duplex (both write at once, each closes after writing) | pingpong (B writes after it has read all of A)
+	Mode    string    `json:"mode"`             // direct | proxy (TCP client -> inbound proxy -> mesh stream -> outbound proxy -> TCP server)
+	Shape   string    `json:"shape"`            // duplex (both write at once, each closes after writing) | pingpong (B writes after it has read all of A)
 	CutAt   int       `json:"cut_at,omitempty"` // with a detour: cut main-path link (CutLink) once the acceptor has read this many bytes (0 = never)
 	CutLink int       `json:"cut_link,omitempty"`
 	// Twin: a second connection of the same kind (same service / same proxy) opened at the same moment as the main one, carrying its
@@ -42,6 +43,38 @@ type C03Scn struct {
 	Twin  bool  `json:"twin,omitempty"`
 	TwinA []int `json:"twa,omitempty"`
 	TwinB []int `json:"twb,omitempty"`
+}
+
+// lockedBuf collects log output of several goroutines.
+type lockedBuf struct {
+	mu sync.Mutex
+	b  []byte
+}
+
+func (l *lockedBuf) Write(p []byte) (int, error) {
+	l.mu.Lock()
+	if len(l.b) < 1<<20 {
+		l.b = append(l.b, p...)
+	}
+	l.mu.Unlock()
+	return len(p), nil
+}
+
+// tail returns the last error lines (at most n bytes).
+func (l *lockedBuf) tail(n int) string {
+	l.mu.Lock()
+	defer l.mu.Unlock()
+	var keep []string
+	for _, line := range strings.Split(string(l.b), "\n") {
+		if strings.Contains(line, "ERROR") {
+			keep = append(keep, strings.TrimSpace(line))
+		}
+	}
+	out := strings.Join(keep, " / ")
+	if len(out) > n {
+		out = out[len(out)-n:]
+	}
+	return out
 }
 
 // prefixedConn gives back the bytes that were read ahead to identify a connection.
@@ -62,11 +95,11 @@ func (p *prefixedConn) Read(b []byte) (int, error) {
 func c03Byte(dir int, i int64) byte { return byte(i*131 + i>>8*7 + i>>16 + int64(dir)*97) }
 
 type c03Reader struct {
-	total  int64
-	bad    int64 // first differing offset, -1 none
-	eof    bool
-	err    error
-	done   chan struct{}
+	total int64
+	bad   int64 // first differing offset, -1 none
+	eof   bool
+	err   error
+	done  chan struct{}
 }
 
 // readAll reads until EOF/error (or until want bytes when stopAt >= 0), checking every byte against the expected stream.
@@ -189,6 +222,15 @@ func execC03(b []byte) vx.Verdict {
 		return vx.Inconclusive("mesh did not converge over the faulty links: %s", msg)
 	}
 	first, last := m.Node(names[0]).N, m.Node(names[s.Hops]).N
+	// through the proxies the application only sees a closed / reset TCP socket; what ended the mesh stream is in the nodes' logs
+	nodeLog := &lockedBuf{}
+	for _, nm := range all {
+		m.Node(nm).N.Logger.SetOutput(io.Discard)
+	}
+	first.Logger.SetOutput(nodeLog)
+	last.Logger.SetOutput(nodeLog)
+	logger.SetGlobalLogLevel(logger.ErrorLevel)
+	defer logger.SetGlobalQuietMode()
 	wantAB, wantBA := sumInts(s.WritesA), sumInts(s.WritesB)
 	labels := []string{"class:" + s.Class, "mode:" + s.Mode, "shape:" + s.Shape, fmt.Sprintf("hops=%d", s.Hops)}
 
@@ -221,10 +263,10 @@ func execC03(b []byte) vx.Verdict {
 		}()
 	}
 	type twinResult struct {
-		dialErr        error
-		wErrA, wErrB   error
-		rdCli, rdSrv   *c03Reader
-		cliUp, srvUp   chan struct{}
+		dialErr      error
+		wErrA, wErrB error
+		rdCli, rdSrv *c03Reader
+		cliUp, srvUp chan struct{}
 	}
 	tw := &twinResult{cliUp: make(chan struct{}), srvUp: make(chan struct{})}
 	wantTA, wantTB := sumInts(s.TwinA), sumInts(s.TwinB)
@@ -438,6 +480,9 @@ func execC03(b []byte) vx.Verdict {
 			v := vx.Inconclusive("transfer did not complete under stress-class loss: %s", detail)
 			return v
 		}
+		if s.Mode == "proxy" {
+			detail += " | endpoint nodes logged: " + nodeLog.tail(4000)
+		}
 		for _, needle := range []string{"no connection to next hop", "no route to node", "connInfo cancelled while forwarding"} {
 			if strings.Contains(detail, "INTERNAL_ERROR (local): "+needle) {
 				// the endpoint's own node could not hand a packet to a next hop for a moment (link just cut, session re-established);
@@ -501,6 +546,9 @@ func execC03(b []byte) vx.Verdict {
 			}
 			if s.Class == "stress" {
 				return vx.Inconclusive("transfer did not complete under stress-class loss: %s", detail)
+			}
+			if s.Mode == "proxy" {
+				detail += " | endpoint nodes logged: " + nodeLog.tail(4000)
 			}
 			for _, needle := range []string{"no connection to next hop", "no route to node", "connInfo cancelled while forwarding"} {
 				if strings.Contains(detail, "INTERNAL_ERROR (local): "+needle) {
